@@ -262,3 +262,7 @@ _amend('C13', 'Dual-quaternion lerp is the affine blend x (1 - a) + y (+-a) of a
 _amend('C16', 'Conversions between aligned and packed vectors (every length, element type, qualifier pair) and matrices keep the element order in the SIMD configurations.')
 _amend('C17', 'Writable swizzles: scalar fill, += -= *= /= with a vector, and assignment / compound assignment of a whole-vector swizzle from the vector itself (aliasing) change exactly the named lanes with the prescribed values.')
 _amend('C18', 'The multiple family is decided for the 8- and 16-bit types in every tier: the dividend of the remainder is read at the width it is computed in and must not wrap on the x-range of its path; undecided paths of the narrow types are refuted by exact evaluation of the derived term at the corners of the range.')
+_amend('C04', 'roll / pitch / yaw / eulerAngles: for q = qua(e) the arguments of the returned atan2 are (sin a cos y, cos a cos y) and of asin sin y identically; in gimbal lock roll is 0 and pitch is p -+ r; the fallback is taken only when both regular arguments are below epsilon (else refuted with a rational unit quaternion).')
+_amend('C09', 'axisAngle() on a rotation matrix in general position returns sign(s) n and acos(c) on every path outside the near-symmetric branch; interpolate() is axisAngleMatrix(axis, angle * delta) * rot(m1) with (axis, angle) = axisAngle(m2 * transpose(rot(m1))) and the translation blended affinely (sub-functions kept as opaque calls).')
+_amend('C10', 'The same definitions are checked for the aligned matrix types of the SIMD configurations (SSE2; AVX2 and double in the thorough tier), which have their own inverse / determinant code.')
+_amend('C11', 'The GLSL definitions are checked for the scalar overload and for every vector length, including the mixed vector / scalar overloads; step is total (a NaN operand gives 1).')
